@@ -295,6 +295,10 @@ def insert(field, out, intensity=False, weight=1):
             field_cmax -= out_cmax - out_shape[1]
             out_cmax = out_shape[1]
 
+        if out_rmin >= out_rmax or out_cmin >= out_cmax:
+            # field lies wholly outside out
+            return out
+
         out_slice = slice(out_rmin, out_rmax), slice(out_cmin, out_cmax)
         field_slice = slice(field_rmin, field_rmax), slice(field_cmin, field_cmax)
 
